@@ -106,14 +106,19 @@ PROPS = {
                       "with the panic outcome then its final state is such a D43 state; covers next_cmd, every command, circular and "
                       "list completion, incremental search, the dispatch loop, quoted insert, suspend, the main loop (induction on "
                       "the fuel; fuel exhaustion is the outcome fuel), the initial text and the final cursor move; GIVEN acceptable "
-                      "bindings (BindsI: a bound ReplaceChar count fits u16, YankPop not bound in vi mode) and the open "
-                      "obligations C17_Open J, stated for an ABSTRACT cross-step invariant J (the facts about undo log and kill ring "
-                      "that Undo / YankPop need; for RdInv alone the two obligations would be false, so they are not stated that "
-                      "way): from RdInv and J, Undo is safe and re-establishes both (for J = the C05 log invariant this is the proved "
-                      "C17_undo_safe_of_log; before the repair of D47 that invariant was not kept by a vi-mode read), the same for YankPop in "
-                      "EMACS mode (no-panic half proved for J = PopOK: C17_yankPop_safe_of_popOK), and every other command and "
-                      "every non-command step of the read keeps J. No such J is exhibited: the theorem is a proved reduction of "
-                      "'the only panic is D43' to these obligations, not the unconditional statement. Building block for PopOK (not yet used by that theorem): C17_ring_frame - every command but Kill / Replace / ViYankTo / Yank / YankPop, next_cmd and the dispatch loop leave the kill ring exactly as it was (Lemmas/EditorRing.lean, structural pass em_ring). "
+                      "bindings (BindsI: a bound ReplaceChar count fits u16, YankPop not bound in vi mode, Replace and ViYankTo - vi's c/s/R and y "
+                      "commands - not bound in emacs mode) and the open obligations C17_Open J. For Undo they are stated for an ABSTRACT "
+                      "cross-step invariant J (for RdInv alone the obligation would be false): from RdInv and J, Undo is safe and "
+                      "re-establishes both (for J = the C05 log invariant this is the proved C17_undo_safe_of_log), and every other "
+                      "command and every non-command step of the read keeps J; no such J is exhibited. For YankPop (emacs mode; never "
+                      "executed in vi mode) the CROSS-STEP part is discharged (round 10): the main loop itself carries PopOK (the text of "
+                      "the last yank stands right before the cursor) - safe_mainLoop with PopPre (PopOK, and last action reset unless the "
+                      "command is one the loop does not reset for), the kill-ring frame C17_ring_frame (every command but Kill / Replace / "
+                      "ViYankTo / Yank / YankPop, next_cmd and the dispatch loop leave the ring as it was), pop_preCmds, popI_execute "
+                      "(ClearScreen / Noop / Suspend keep line and ring) - and rsafe_yankPop makes YankPop safe from it; what is left of "
+                      "it (C17_Open.pop = PopLocal) are three facts about ONE command each: a Kill that leaves last action = Yank leaves "
+                      "line and cursor alone, and after Yank / after YankPop the pasted text stands before the cursor. The theorem is a "
+                      "proved reduction of 'the only panic is D43' to these obligations, not the unconditional statement. "
                       "Discharged by the result-tracking pass C17_next_cmd_returns (every command next_cmd returns, in both modes: a "
                       "ReplaceChar count is <= 65535, and in vi mode it is never YankPop - C17_vi_never_yankPop for the default "
                       "keymaps; C17_dispatch_returns: the sub-loops hand back only such commands): the former obligations about "
@@ -478,7 +483,8 @@ PROPS["C02"] = {
             "the pty harness cuts the output where the Event::Any handler runs (marker written from inside the handler)",
             "validators' messages, list completion, incremental-search prompts, the external printer, tabs and control characters in the "
             "text are outside this check (not in the property's quantifier, or other properties)"],
-        "unproved": [],
+        "unproved": ["C02_logBd_statement: every cursor the editor model logs is on a character boundary, under the helper contracts of C17 - "
+                     "needs the line-buffer invariant carried through the bodies of commands and sub-loops (with L's open J for Undo / YankPop)"],
         "level_text": "Lean theorems, for every lawful segmenter, width table and terminal width >= 2, over prompts/lines/hints made of "
                       "line breaks and printable clusters of width 0/1/2: the grapheme loop of calculate_position simulates the cursor "
                       "of a VT100-style terminal (deferred wrap, early wrap of wide characters, zero-width joins); positions computed "
@@ -508,8 +514,14 @@ PROPS["C02"] = {
                       "search prompt) + line + cursor - with no hypothesis about the line buffer: LBFaithful (operations that report no change "
                       "changed nothing: 11 motions, kill for every Movement, transpose_chars, edit_word, transpose_words, indent, yank, yank_pop, "
                       "delete, Changeset::undo) is the theorem C02_lbFaithful (Rl/Lemmas/LBFaithful.lean) since the repairs of D44 (yank_pop) and "
-                      "D45 (edit_yank). Remaining hypotheses of the two final theorems: cols >= 2, C02_Plain prompt, control characters of width 0, "
-                      "LogFine of the produced log. Every command of execute (pres_execute), listing and circular completion and - since "
+                      "D45 (edit_yank). Remaining hypotheses of the two final theorems: cols >= 2, C02_Plain prompt, control characters of width 0 "
+                      "(C02_CtlZero), and the two halves of LogFine of the produced log, stated apart (logFine_iff): LogPlain (every logged text "
+                      "consists of PlainG clusters: an input restriction, kept as a hypothesis on the log - as a predicate on the inputs it needs an "
+                      "alphabet restriction on segmenter / width table / case mappings and a character-level closure pass over the whole editor) and "
+                      "LogBd (every logged cursor is on a character boundary). LogBd is not derived yet (C02_logBd_statement): package L's read "
+                      "invariant gives WF s.line where commands and sub-loops return, a log entry records the line where the renderer is called, in "
+                      "the middle of them; proved groundwork (Rl/Lemmas/RenderLogBd.lean): WF s.line and LogBd s.render is a step invariant of every "
+                      "rendering primitive and of next_cmd in both modes (bdp_nextCmd). Every command of execute (pres_execute), listing and circular completion and - since "
                       "the repair of D42 - incremental search (est_searchLoop) are lifted. "
                       "The differential check covers the real Editor::readline "
                       "on a pty at widths 2..40 and 80, its output interpreted by the Lean terminal emulator at every Event::Any "
